@@ -8,4 +8,9 @@ Extraction "c10_model.ml"
   c10_ndigits c10_val c10_assign c10_add c10_incr c10_sub c10_mul c10_lt c10_le c10_gt c10_ge c10_ne c10_eq
   c10_div c10_mod c10_and c10_or c10_xor c10_not c10_shl c10_shr c10_touint c10_todouble c10_print
   c10_max c10_min c10_limit_digits c10_wfb
-  c10_spec_binop c10_spec_cmp c10_spec_shift c10_spec_width.
+  c10_numeric_limits c10_ctor_default c10_ctor_signed c10_to_uintmax c10_apply
+  c10_free_right c10_free_left c10_free_right_conv c10_free_left_conv c10_free_right_signed c10_free_left_signed
+  c10_div_alias c10_mod_alias c10_shr_checked c10_todouble_trace c10_hash c10_hash_combine c10_stream_insert
+  c10_bits c10_bitmask c10_compbitmask c10_overflowmask c10_param_hexdigits c10_param_uintmax_digits
+  c10_param_double_digits c10_param_size_t_bits c10_param_touint_bits
+  c10_spec_binop c10_spec_cmp c10_spec_shift c10_spec_width c10_spec_todouble c10_spec_sigdigits.
